@@ -26,15 +26,23 @@ Definition sN (len : nat) (v : N) : str := sN_aux len v [].
 (** Decoders for the flat token streams written by the harnesses
     (harness/hcq): a cases file is one long [a :: b :: ... :: nil] of numbers,
     which Coq reads an order of magnitude faster than nested list and string
-    literals.  string = length, value; list = count, elements; option = 0 | 1 x;
+    literals (and small numerals much faster than long ones).  string = length, then one token per byte; list = count, elements; option = 0 | 1 x;
     bool = 0 | 1. *)
 Definition dec (A : Type) := list N -> option (A * list N).
 
 Definition d_N : dec N := fun s => match s with x :: r => Some (x, r) | [] => None end.
 Definition d_nat : dec nat := fun s => match s with x :: r => Some (N.to_nat x, r) | [] => None end.
 Definition d_bool : dec bool := fun s => match s with x :: r => Some (negb (x =? 0), r) | [] => None end.
+Fixpoint d_take (n : nat) (s : list N) : option (str * list N) :=
+  match n with
+  | O => Some ([], s)
+  | S k => match s with
+           | c :: r => match d_take k r with Some (t, r') => Some (c :: t, r') | None => None end
+           | [] => None
+           end
+  end.
 Definition d_str : dec str :=
-  fun s => match s with l :: v :: r => Some (sN (N.to_nat l) v, r) | _ => None end.
+  fun s => match s with l :: r => d_take (N.to_nat l) r | [] => None end.
 Definition d_map {A B} (f : A -> B) (d : dec A) : dec B :=
   fun s => match d s with Some (a, r) => Some (f a, r) | None => None end.
 Definition d_pair {A B} (da : dec A) (db : dec B) : dec (A * B) :=
@@ -61,6 +69,16 @@ Definition d_option {A} (d : dec A) : dec (option A) :=
 (** the whole stream is one list of cases; anything else is a decoding error *)
 Definition decode_cases {A} (d : dec A) (s : list N) : option (list A) :=
   match d_list d s with Some (l, []) => Some l | _ => None end.
+
+(** streams that start with a table of strings; cases then refer to strings
+    by index ([d_ref]) *)
+Definition d_ref (table : list str) : dec str :=
+  fun s => match s with i :: r => Some (nth (N.to_nat i) table [], r) | [] => None end.
+Definition decode_cases_t {A} (d : list str -> dec A) (s : list N) : option (list A) :=
+  match d_list d_str s with
+  | Some (table, r) => decode_cases (d table) r
+  | None => None
+  end.
 
 (** ASCII literal -> str (used by models and theorem statements) *)
 Fixpoint lit (s : String.string) : str :=
